@@ -237,4 +237,40 @@ def refRun (s : State) : List Op → State × List Out
     let (s2, os) := refRun s1 ops
     (s2, o :: os)
 
+/-! ### Tables read off `_position.py` by `translator/extract_cache.py` (one row per site in the source) -/
+namespace Table
+
+/-- a store into a per-object `_cache`: `self._cache[key] = …` in method `fn` of class `cls`; `params` are the parameters of
+`fn` besides `self` (what the stored value can depend on apart from the object itself) -/
+structure CacheWrite where
+  cls : String
+  fn : String
+  key : String
+  params : List String
+  deriving Repr, DecidableEq
+
+/-- an attribute store on `self`: `how` is `assign` (`self.x = …`, goes through `PosBase.__setattr__`), `setattr`
+(`setattr(self, …)`, likewise), `bypass` (`super().__setattr__(…)` / `object.__setattr__`) or `__dict__` -/
+structure AttrWrite where
+  cls : String
+  fn : String
+  attr : String
+  how : String
+  deriving Repr, DecidableEq
+
+/-- a method that changes contents or attributes in place, and whether its first statement drops the cache(s) -/
+structure Mutator where
+  cls : String
+  fn : String
+  clearsFirst : Bool
+  deriving Repr, DecidableEq
+
+/-- a cached entry may depend on the object and on the name of the target system only -/
+def CacheWrite.selfKeyed (w : CacheWrite) : Bool := w.params.all (· == "system")
+
+/-- a store that does not pass through `PosBase.__setattr__` (no cache clearing, no registration as a dependent) -/
+def AttrWrite.bypasses (w : AttrWrite) : Bool := w.how == "bypass" || w.how == "__dict__"
+
+end Table
+
 end Midgard.ObjCache
